@@ -89,3 +89,16 @@ def replay(prop, spec, path):
         return 1
     print(f"replay did not reproduce oracle={doc['oracle']} (violations now: {[v['oracle'] for v in res['violations']]})")
     return 0 if not res["violations"] else 1
+
+for _p in ("C06", "C07", "C10", "C13", "C15"):
+    reg(_p, "checks.engine", dict(quick=2600, thorough=60000), dict(quick=55, thorough=900), "exploration", ENGINE_RULE)
+
+DEFAULT_NOTE = (
+    "trusted base: simkit's simulated threading primitives and virtual clock, the workload generator and the "
+    "reference model in /verif/model; sampling, not proof: a clean batch is evidence only"
+)
+LEVEL_TEXT = {
+    "default": "seeded exploration of schedules, fault plans and generated plans under a deterministic simulator; "
+               "every case is replayable from its description; finds violations with probability growing in the "
+               "number of cases, proves nothing",
+}
